@@ -176,6 +176,19 @@ Theorem C08_wrapper_one_record_per_call : forall pol now h c,
 Proof. intros. split; [apply wrapper_one_record | apply wrapper_call_shape]. Qed.
 Print Assumptions C08_wrapper_one_record_per_call.
 
+(** ... whatever the state of the call's context *)
+Theorem C08_wrapper_context_independent : forall pol now cx h c,
+  wrap_call_ctx pol now cx h c = wrap_call pol now h c /\
+  wrap_records h = [match h with HOk => false | _ => true end] /\
+  (fst (cb_acquire pol now c) = true ->
+     snd (wrap_call_ctx pol now cx h c) =
+     snd (cb_record pol now (c_id (snd (cb_acquire pol now c)))
+            (classify pol (match h with HOk => false | _ => true end) 0) (snd (cb_acquire pol now c)))) /\
+  (fst (cb_acquire pol now c) = false ->
+     wrap_call_ctx pol now cx h c = (WShort, snd (cb_acquire pol now c))).
+Proof. exact wrapper_context_independent. Qed.
+Print Assumptions C08_wrapper_context_independent.
+
 (** a short-circuited call is answered 503 / shortCircuited and runs no handler (contacts no server) *)
 Theorem C08_short_circuit_is_503 : forall pol now h c b,
   fst (cb_acquire pol now c) = false ->
